@@ -43,7 +43,7 @@ PARTIAL = {
     "origin_in_portal_tetrahedron": "that the barycentric weights of _contact_position are non-negative (the origin stays "
                                     "inside the tetrahedron v0 v1 v2 v3 through _refine_portal/_find_penetration_info) is a "
                                     "hypothesis of contact_exact_of_nonneg_weights, not proved — and false for exactly "
-                                    "touching pairs and other exact ties of _expand_portal (finding F-mpr-expand-tie-contact); contact_bary gives only: midpoint "
+                                    "touching pairs and other exact ties of _expand_portal (finding F-mpr-expand-tie); contact_bary gives only: midpoint "
                                     "of two pre-images, half their distance from both, pre-images in A and B where the "
                                     "weights are non-negative",
     "contact_point_in_both_sets": "not a theorem of the unchanged code: segment_contact_asIs_counterexample proves the "
@@ -169,10 +169,7 @@ def sup(spec, n):
     k = spec["type"]
     n = np.asarray(n, dtype=float)
     if k in POLY:
-        V = spec.get("_wv")
-        if V is None:
-            V = world_vertices(spec)
-            spec["_wv"] = V
+        V = world_vertices(spec)       # never cached in the spec: specs are copied and edited
         return V[int(np.argmax(V.dot(n)))]
     R = rot_of(spec)
     return pos_of(spec) + R.dot(sup_local(spec, R.T.dot(n)))
@@ -1322,7 +1319,7 @@ def corpus_scenes():
 
 # =============================================================================== failing-input search
 F_SEG = "F-mpr-segment-contact"
-F_TIE = "F-mpr-expand-tie-contact"
+F_TIE = "F-mpr-expand-tie"
 
 
 def segment_class(sa, sb):
@@ -1355,16 +1352,17 @@ def has_expand_tie(calls):
 
 def finding_of(scene, what, observed, info):
     """attach a known-finding id only to the exact class the finding describes"""
-    if what != "contact position outside a collider":
+    if what not in ("contact position outside a collider", "intersection reported for a separated pair"):
         return None
     L, t = info["L"], info.get("depth", 0.0)
-    worst = max(observed["dist_to_1_at_least"], observed["dist_to_2_at_least"])
-    if segment_class(scene["a"], scene["b"]) and worst <= 0.5 * t + TOLK * L:
-        return F_SEG
+    if what == "contact position outside a collider":
+        worst = max(observed["dist_to_1_at_least"], observed["dist_to_2_at_least"])
+        if segment_class(scene["a"], scene["b"]) and worst <= 0.5 * t + TOLK * L:
+            return F_SEG
     # tie class: read off the real run (not the model): an exact tie in _expand_portal and the
     # origin outside the portal tetrahedron (a negative barycentric weight in the main branch)
     try:
-        _, calls = traced_mpr(scene["a"], scene["b"], **(info.get("kw") or {}))
+        _, calls = traced_mpr(scene["a"], scene["b"])
     except Exception:  # noqa
         return None
     if classify(calls)["contact"] == "main-negative-weight" and has_expand_tie(calls):
@@ -1533,7 +1531,7 @@ def known_witness_scenes():
     out = []
     if os.path.exists(path):
         for k in json.load(open(path)):
-            for key in ("witness", "witness2"):
+            for key in ("witness", "witness2", "witness3"):
                 w = k.get(key, {})
                 if "a" in w and "b" in w:
                     out.append({"a": w["a"], "b": w["b"], "placement": "witness:" + k["id"], "stream": "W"})
